@@ -220,7 +220,7 @@ INLINES = ["em", "strong", "code", "url", "auto", "image", "hard", "soft", "math
 LINK_TEXTS = ["plain", "`code`", "$m^2$", "*em*", "**`c`**", "![i](i.png)", "<b>h</b>", "", "a [b] c", "x `c` y", "&amp;", "\\*"]
 LINK_DESTS = ["https://e.org/x?a=1&b=2", "other.md", "./a/b.md#frag", "#anchor", "nofile.txt", "<a b.md>", "mailto:a@b.c", "", "/abs/x.md", "ünï.md", "x%20y.md", "a\\(b\\).md"]
 IMG = ["![alt](i.png)", "![*em* `c` alt](p/q.png \"T\")", "![](i.png)", "![a](<sp ace.png>)", "![a](https://e.org/i.png 'ti')", "![a ![b](c.png) d](e.png)", "![a][ref]\n\n[ref]: r.png \"RT\""]
-OL = ["1. a\n2. b", "0. a\n1. b", "7) a\n8) b", "007. a", "123456789. a", "1. a\n\n   1) b\n   2) c", "- x\n\n  0) y", "> 3. q", "2. a\n\n3) b", "* a\n+ b\n- c", "- a\n  - b\n    * c"]
+OL = ["{style=lower-alpha}\n1. a\n2. b", "{style=upper-roman start=4}\n4. a\n5. b", "{style=nosuch}\n1) a", "- x\n\n  {style=upper-alpha}\n  3. y", "1. a\n2. b", "0. a\n1. b", "7) a\n8) b", "007. a", "123456789. a", "1. a\n\n   1) b\n   2) c", "- x\n\n  0) y", "> 3. q", "2. a\n\n3) b", "* a\n+ b\n- c", "- a\n  - b\n    * c"]
 ALIGN = [":--", "--:", ":-:", "---"]
 INFO = ["python", "c", "text", "unknownlang", "python extra", "  py", "c++", "", "~x", "Python"]
 
